@@ -19,6 +19,8 @@ use crate::vterm::VTerm;
 
 const COLS: usize = 120;
 const TICKS: [&str; 5] = ["t0", "t1", "t2", "t3", "FIN"];
+/// a second set with another cycle length (installed by Op::OtherTicks)
+const TICKS2: [&str; 8] = ["u0", "u1", "u2", "u3", "u4", "u5", "u6", "END"];
 
 #[derive(Default, Debug, Clone)]
 struct Seen {
@@ -86,6 +88,9 @@ pub enum Op {
     Finish,
     FinishWithMessage(String),
     Abandon,
+    /// set_style with the same style but the other set of tick strings (another cycle length): the spinner
+    /// shows string number (ticks so far) mod (new cycle)
+    OtherTicks,
 }
 
 #[derive(Debug, Clone, Serialize, Deserialize)]
@@ -141,6 +146,7 @@ fn op_strategy() -> BoxedStrategy<Op> {
         1 => Just(Op::Finish),
         1 => "[a-z]{0,6}".prop_map(Op::FinishWithMessage),
         1 => Just(Op::Abandon),
+        1 => Just(Op::OtherTicks),
     ]
     .boxed()
 }
@@ -178,6 +184,7 @@ fn run_keys(c: &KeyCase) -> CaseResult {
     let mut trk_ticks = 0u64; // lower bound of tracker tick notifications
     let mut resets = 0u64;
     let mut finished = false;
+    let mut alt_ticks = false;
     let mut v = Verdict::default();
     let initial = (c.start, c.len);
     let mut changed = false;
@@ -199,6 +206,10 @@ fn run_keys(c: &KeyCase) -> CaseResult {
             Op::Finish => pb.finish(),
             Op::FinishWithMessage(m) => pb.finish_with_message(m.clone()),
             Op::Abandon => pb.abandon(),
+            Op::OtherTicks => {
+                let next: &[&str] = if alt_ticks { &TICKS } else { &TICKS2 };
+                pb.set_style(pb.style().tick_strings(next));
+            }
         })
         .map_err(|p| Fail::new("panic", format!("op #{i} {op:?} panicked: {p}")))?;
         match op {
@@ -212,6 +223,7 @@ fn run_keys(c: &KeyCase) -> CaseResult {
                 finished = false;
             }
             Op::ResetEta => {}
+            Op::OtherTicks => alt_ticks = !alt_ticks,
             Op::Finish | Op::FinishWithMessage(_) | Op::Abandon => finished = true,
         }
         // draw now and read every getter at the same frozen instant
@@ -261,7 +273,9 @@ fn run_keys(c: &KeyCase) -> CaseResult {
             let got = field(&lines, "wide_msg")?;
             model::check_pad(&msg, COLS - "wide_msg=<>".len(), Align::Left, true, got).map_err(|m| Fail::new("text", format!("{ctx}: {{wide_msg}}: {m}")))?;
         }
-        let want_spin = if fin { TICKS[TICKS.len() - 1] } else { TICKS[(ticks % (TICKS.len() as u64 - 1)) as usize] };
+        let set: &[&str] = if alt_ticks { &TICKS2 } else { &TICKS };
+        let want_spin = if fin { set[set.len() - 1] } else { set[(ticks % (set.len() as u64 - 1)) as usize] };
+        v.label_if(alt_ticks && ticks >= 4, "tick_strings_replaced_after_a_full_cycle");
         eq!("spinner", want_spin.to_string(), "spinner");
         // percent: nearest integer of 100*fraction (ties either way), fraction from the draw-time state
         ensure!(s.writes > 0, "tracker", "{ctx}: custom key was never written");
@@ -486,12 +500,12 @@ pub fn property() -> Property {
         ],
         parts: vec![Box::new(Gen::<KeyCase> {
             name: "keys",
-            rule: "one template holding every documented key (26 plain, 5 with width/alignment, wide_msg, bar, wide_bar) and a stateful custom tracker; 0-16 (thorough 40) ops (inc/dec/set_position/update/set_length/unset_length/inc_length/set_message/set_prefix/tick/reset/reset_eta/finish/finish_with_message/abandon) with gaps 2 ms..55 h on the virtual clock; after every op a forced draw is compared field by field with the getters pushed through the public formatters; non-trivial = position/length/message differ from creation",
+            rule: "one template holding every documented key (26 plain, 5 with width/alignment, wide_msg, bar, wide_bar) and a stateful custom tracker; 0-16 (thorough 40) ops (inc/dec/set_position/update/set_length/unset_length/inc_length/set_message/set_prefix/tick/reset/reset_eta/finish/finish_with_message/abandon/set_style with tick strings of another cycle length) with gaps 2 ms..55 h on the virtual clock; after every op a forced draw is compared field by field with the getters pushed through the public formatters; non-trivial = position/length/message differ from creation",
             strategy: case_strategy,
             cases: |t| t.pick(7_500, 480_000),
             run: run_keys,
             signature: no_signature,
-            essential: &["state_changed_before_draw", "unknown_length", "len_lt_pos", "finished", "eta_nonzero", "rate_nonzero", "elapsed_hours", "reset", "custom_key_shadows_a_built_in_key"],
+            essential: &["state_changed_before_draw", "unknown_length", "len_lt_pos", "finished", "eta_nonzero", "rate_nonzero", "elapsed_hours", "reset", "custom_key_shadows_a_built_in_key", "tick_strings_replaced_after_a_full_cycle"],
             workers: w,
             decode: None,
         }),
